@@ -314,3 +314,65 @@ func GenTree(prop string, r *sim.Rand, tier string) sim.Script {
 	}
 	return s
 }
+
+// GenRounds generates a multi-round script (C04, C05).
+func GenRounds(prop string, r *sim.Rand, tier string) sim.Script {
+	s := &RoundScript{Prop: prop, Lag: r.Intn(3), Rebase: r.Chance(1, 2)}
+	profile := []string{"tiny", "fixed", "mixed", "dense", "dense"}[r.Intn(5)]
+	nPool := 2 + r.Intn(8)
+	nRounds := 1 + r.Intn(5)
+	if prop == "C05" {
+		nRounds = 2 + r.Intn(7)
+	}
+	maxTxn, maxOps := 4, 5
+	long := tier == "thorough" && prop == "C05" && r.Chance(1, 150)
+	if long {
+		nRounds = 40 + r.Intn(40)
+		nPool = 60 + r.Intn(60)
+		maxTxn, maxOps = 6, 8
+	}
+	pool := pathPool(r, profile, nPool)
+	valProfile := []string{"small", "small", "plain"}[r.Intn(3)]
+	n := 0
+	mut := func(t int) Op {
+		p := pool[r.Intn(len(pool))]
+		if r.Chance(1, 3) {
+			return Op{K: "del", T: t, P: p}
+		}
+		n++
+		return Op{K: "ins", T: t, P: p, V: genValue(r, valProfile, n)}
+	}
+	for rd := 0; rd < nRounds; rd++ {
+		gap := int64(0)
+		if r.Chance(1, 6) {
+			gap = int64(r.Intn(3))
+		}
+		s.Ops = append(s.Ops, Op{K: "round", N: gap})
+		kidx := 0
+		for t := r.Intn(maxTxn + 1); t > 0; t-- {
+			if r.Chance(1, 5) {
+				s.Ops = append(s.Ops, mut(0)) // direct block update
+			}
+			s.Ops = append(s.Ops, Op{K: "child"})
+			kidx++
+			for k := 1 + r.Intn(maxOps); k > 0; k-- {
+				s.Ops = append(s.Ops, mut(kidx))
+			}
+			if r.Chance(3, 4) {
+				s.Ops = append(s.Ops, Op{K: "merge", T: kidx})
+			} else {
+				s.Ops = append(s.Ops, Op{K: "discard", T: kidx})
+			}
+		}
+		if r.Chance(1, 4) {
+			s.Ops = append(s.Ops, Op{K: "save"})
+		}
+		if prop == "C05" && rd > 0 && (r.Chance(1, 3) || (long && rd%10 == 9)) {
+			s.Ops = append(s.Ops, Op{K: "prune", N: int64(r.Intn(rd + 4))})
+		}
+	}
+	if prop == "C05" {
+		s.Ops = append(s.Ops, Op{K: "prune", N: int64(r.Intn(nRounds + 4))})
+	}
+	return s
+}
